@@ -40,6 +40,7 @@ import "github.com/gebn/bmc/pkg/ipmi"
 //@ ensures [C11.match] result == nil && isnil(terminalErr) ==> s.messageLayer.Function == c.Operation().Function+1 && s.messageLayer.Command == c.Operation().Command &&
 //@    s.messageLayer.Body == c.Operation().Body && s.messageLayer.Enterprise == c.Operation().Enterprise
 //@ ensures [C18.retry] metric(commandRetries) == old(metric(commandRetries))+ite(old(firstAttempt), 0, 1)
+//@ ensures [keep.metrics] metricsOnly(commandRetries, commandResponses)
 
 // ---- v2sessionless.go: the retry closures of session-less commands and RMCP+ payloads
 
@@ -54,9 +55,11 @@ import "github.com/gebn/bmc/pkg/ipmi"
 //@ ensures [C11.match] result == nil ==> s.messageLayer.Function == c.Operation().Function+1 && s.messageLayer.Command == c.Operation().Command &&
 //@    s.messageLayer.Body == c.Operation().Body && s.messageLayer.Enterprise == c.Operation().Enterprise
 //@ ensures [C18.retry] metric(commandRetries) == old(metric(commandRetries))+ite(old(firstAttempt), 0, 1)
+//@ ensures [keep.metrics] metricsOnly(commandRetries, commandResponses)
 
 //@ func (*V2Sessionless).buildAndSendPayload$1
-//@ props C05 C10
+//@ props C05 C10 C18
+//@ ensures [keep.metrics] metricsOnly()
 //@ requires [conn.valid] !isnil(s) && !isnil(s.buffer) && !isnil(s.transport) && !isnil(s.decode) && !isnil(ctx) && bufValid(s.buffer)
 //@ requires [inv.conn] connValid(s)
 //@ ensures [inv.conn] connValid(s)
@@ -65,7 +68,8 @@ import "github.com/gebn/bmc/pkg/ipmi"
 // ---- v2sessionless.go / v2session.go: the functions that build the packet around the retry loop
 
 //@ func (*V2Sessionless).buildAndSendCommand
-//@ props C05 C09 C10 C06
+//@ props C05 C09 C10 C06 C18
+//@ ensures [C18.frame] metricsOnly(commandRetries, commandResponses)
 //@ requires [conn.valid] !isnil(s) && !isnil(s.buffer) && !isnil(s.transport) && !isnil(c) && !isnil(s.decode) && !isnil(ctx) && !isnil(s.backoff)
 //@ at SerializeLayers assert [C09.null-wrapper] s.v2SessionLayer.ID == 0 && s.v2SessionLayer.Sequence == 0 && !s.v2SessionLayer.Encrypted && !s.v2SessionLayer.Authenticated &&
 //@    s.v2SessionLayer.PayloadDescriptor == ipmi.PayloadDescriptorIPMI
@@ -76,11 +80,15 @@ import "github.com/gebn/bmc/pkg/ipmi"
 
 //@ func (*V2Sessionless).SendCommand
 //@ props C05 C18
+//@ ensures [C18.attempts] metricvec(commandAttempts, c.Name()) == old(metricvec(commandAttempts, c.Name()))+1
+//@ ensures [C18.failures] metricvec(commandFailures, c.Name()) == old(metricvec(commandFailures, c.Name()))+ite(result1 != nil, 1, 0)
+//@ ensures [C18.frame] metricsOnly(commandAttempts, commandFailures, commandRetries, commandResponses)
 //@ requires [conn.valid] !isnil(s) && !isnil(s.buffer) && !isnil(s.transport) && !isnil(c) && !isnil(s.decode) && !isnil(ctx) && !isnil(s.backoff)
 //@ ensures [inv.conn] connValid(s)
 
 //@ func (*V2Sessionless).buildAndSendPayload
-//@ props C05 C09 C10 C06
+//@ props C05 C09 C10 C06 C18
+//@ ensures [C18.frame] metricsOnly()
 //@ requires [conn.valid] !isnil(s) && !isnil(s.buffer) && !isnil(s.transport) && !isnil(p) && !isnil(s.decode) && !isnil(ctx) && !isnil(s.backoff)
 //@ at SerializeLayers assert [C09.null-wrapper] s.v2SessionLayer.ID == 0 && s.v2SessionLayer.Sequence == 0 && !s.v2SessionLayer.Encrypted && !s.v2SessionLayer.Authenticated &&
 //@    s.v2SessionLayer.PayloadDescriptor == *p.Descriptor()
@@ -88,7 +96,8 @@ import "github.com/gebn/bmc/pkg/ipmi"
 //@ at SerializeLayers assert [C06.rmcp] s.rmcpLayer.Version == 6 && s.rmcpLayer.Sequence == 0xff && s.rmcpLayer.Class == 7 && !s.rmcpLayer.Ack
 
 //@ func (*V2Session).buildAndSend
-//@ props C05 C09 C10
+//@ props C05 C09 C10 C18
+//@ ensures [C18.frame] metricsOnly(commandRetries, commandResponses)
 //@ requires [sess.valid] !isnil(s) && !isnil(s.v2ConnectionShared) && !isnil(s.buffer) && !isnil(s.transport) && !isnil(c) && !isnil(s.decode) && !isnil(ctx) && !isnil(s.confidentialityLayer) && !isnil(s.backoff)
 //@ requires [C09.bound] s.AuthenticatedSequenceNumbers.Inbound < 0xfffffffe // fewer than 2^32-2 datagrams per session (stated limitation)
 
@@ -326,6 +335,7 @@ func connValid(s *V2Sessionless) bool {
 
 //@ func (*V2Sessionless).openSession
 //@ ensures [inv.conn] connValid(s)
+//@ ensures [C18.frame] metricsOnly()
 //@ props C02 C12
 //@ requires [conn.valid] !isnil(s) && !isnil(s.buffer) && !isnil(s.transport) && !isnil(s.decode) && !isnil(ctx) && !isnil(s.backoff) && !isnil(r)
 //@ ensures [C02.open-ok] result1 == nil ==> !isnil(result0) && result0.Tag == r.Tag && result0.Status == ipmi.StatusCodeOK
@@ -335,6 +345,7 @@ func connValid(s *V2Sessionless) bool {
 
 //@ func (*V2Sessionless).rakpMessage1
 //@ ensures [inv.conn] connValid(s)
+//@ ensures [C18.frame] metricsOnly()
 //@ props C02
 //@ requires [conn.valid] !isnil(s) && !isnil(s.buffer) && !isnil(s.transport) && !isnil(s.decode) && !isnil(ctx) && !isnil(s.backoff) && !isnil(r)
 //@ ensures [C02.rakp1-ok] result1 == nil ==> !isnil(result0) && result0.Tag == r.Tag && result0.Status == ipmi.StatusCodeOK
@@ -344,6 +355,7 @@ func connValid(s *V2Sessionless) bool {
 
 //@ func (*V2Sessionless).rakpMessage3
 //@ ensures [inv.conn] connValid(s)
+//@ ensures [C18.frame] metricsOnly()
 //@ props C02
 //@ requires [conn.valid] !isnil(s) && !isnil(s.buffer) && !isnil(s.transport) && !isnil(s.decode) && !isnil(ctx) && !isnil(s.backoff) && !isnil(r)
 //@ ensures [C02.rakp3-ok] result1 == nil ==> !isnil(result0) && result0.Tag == r.Tag && result0.Status == ipmi.StatusCodeOK
@@ -364,7 +376,8 @@ func specHMACInit(a ipmi.AuthenticationAlgorithm, key []byte) int {
 }
 
 //@ func (*V2SessionlessTransport).newV2Session
-//@ props C01 C02 C12
+//@ props C01 C02 C12 C18
+//@ ensures [C18.frame] metricsOnly(commandAttempts, commandFailures, commandRetries, commandResponses)
 //@ requires [new.args] !isnil(s) && !isnil(s.V2Sessionless) && connValid(s.V2Sessionless) && !isnil(ctx) && !isnil(opts)
 //@ at rakpMessage1 assert [C12.confirm] openSessionRsp.AuthenticationPayload.Algorithm == cipherSuite.AuthenticationAlgorithm && openSessionRsp.IntegrityPayload.Algorithm == cipherSuite.IntegrityAlgorithm &&
 //@    openSessionRsp.ConfidentialityPayload.Algorithm == cipherSuite.ConfidentialityAlgorithm
@@ -378,9 +391,9 @@ func specHMACInit(a ipmi.AuthenticationAlgorithm, key []byte) int {
 //@ ensures [C12.algos] result1 == nil ==> result0.AuthenticationAlgorithm == openSessionRsp.AuthenticationPayload.Algorithm && result0.IntegrityAlgorithm == openSessionRsp.IntegrityPayload.Algorithm &&
 //@    result0.ConfidentialityAlgorithm == openSessionRsp.ConfidentialityPayload.Algorithm
 //@ ensures [C01.ids] result1 == nil ==> result0.LocalID == openSessionRsp.RemoteConsoleSessionID && result0.RemoteID == openSessionRsp.ManagedSystemSessionID
-//@ ensures [C01.sik-kg] result1 == nil && len(opts.KG) > 0 ==> len(result0.SIK) == hashLenBy(hashGenerator.hashGen) &&
+//@ ensures [C01+C02.sik-kg] result1 == nil && len(opts.KG) > 0 ==> len(result0.SIK) == hashLenBy(hashGenerator.hashGen) &&
 //@    hIsDigest(result0.SIK, specSIKInput(specHMACInit(result0.AuthenticationAlgorithm, opts.KG), rakpMessage1, rakpMessage2))
-//@ ensures [C01.sik-password] result1 == nil && len(opts.KG) == 0 ==> len(result0.SIK) == hashLenBy(hashGenerator.hashGen) &&
+//@ ensures [C01+C02.sik-password] result1 == nil && len(opts.KG) == 0 ==> len(result0.SIK) == hashLenBy(hashGenerator.hashGen) &&
 //@    hIsDigest(result0.SIK, specSIKInput(specHMACInit(result0.AuthenticationAlgorithm, opts.Password), rakpMessage1, rakpMessage2))
 //@ at authenticationAlgorithmParams).K assert [C02.rakp4-icv] len(rakpMessage4.ICV) == ite(hashGenerator.icvLength == 0, hashLenBy(hashGenerator.hashGen), hashGenerator.icvLength) &&
 //@    hIsDigest(rakpMessage4.ICV, specRAKP4Input(hmacKeyedBy(hashGenerator.hashGen, sik), rakpMessage1, rakpMessage2))
@@ -395,21 +408,72 @@ func specHMACInit(a ipmi.AuthenticationAlgorithm, key []byte) int {
 //@ ensures [C01.hashgen] result1 == nil ==> (result0.AuthenticationAlgorithm == ipmi.AuthenticationAlgorithmHMACSHA1 ==> holdsFunc(hashGenerator.hashGen, "crypto/sha1.New")) &&
 //@    (result0.AuthenticationAlgorithm == ipmi.AuthenticationAlgorithmHMACMD5 ==> holdsFunc(hashGenerator.hashGen, "crypto/md5.New")) &&
 //@    (result0.AuthenticationAlgorithm == ipmi.AuthenticationAlgorithmHMACSHA256 ==> holdsFunc(hashGenerator.hashGen, "crypto/sha256.New"))
-//@ ensures [C01.sik-stored] result1 == nil ==> window(result0.SIK, sik, 0, len(sik))
+//@ ensures [C01+C02.sik-stored] result1 == nil ==> window(result0.SIK, sik, 0, len(sik))
 
 //@ func RetrieveSupportedCipherSuites
-//@ props C12
+//@ props C12 C18
 //@ invariant 0 [inv.loop-a] connValid(s.V2Sessionless)
 //@ invariant 0 [inv.loop-b] s.V2Sessionless == old(s.V2Sessionless)
 //@ invariant 0 [inv.loop-c] !isnil(s.V2Sessionless)
+//@ invariant 0 [inv.loop-m] metricsOnly(commandAttempts, commandFailures, commandRetries, commandResponses)
+//@ ensures [C18.frame] metricsOnly(commandAttempts, commandFailures, commandRetries, commandResponses)
 //@ requires [conn.valid] !isnil(s) && !isnil(s.V2Sessionless) && connValid(s.V2Sessionless) && !isnil(ctx)
 //@ ensures [inv.conn] connValid(s.V2Sessionless) && s.V2Sessionless == old(s.V2Sessionless)
 //@ ensures [C16.no-partial] result1 != nil ==> len(result0) == 0
 
 //@ func (*V2SessionlessTransport).determineCipherSuite
-//@ props C12
+//@ props C12 C18
+//@ ensures [C18.frame] metricsOnly(commandAttempts, commandFailures, commandRetries, commandResponses)
 //@ requires [conn.valid] !isnil(s) && !isnil(s.V2Sessionless) && connValid(s.V2Sessionless) && !isnil(ctx)
 //@ ensures [inv.conn] connValid(s.V2Sessionless) && s.V2Sessionless == old(s.V2Sessionless)
 //@ ensures [C12.nonnil] (result1 == nil) == !isnil(result0)
 //@ ensures [C12.single] len(desiredSuites) == 1 ==> result1 == nil && result0 == &desiredSuites[0]
 //@ ensures [C12.single-nodiscovery] len(desiredSuites) == 1 ==> sends() == old(sends())
+//@ invariant 0 [C12.map-complete] forall(qj, 0, rangeindex+1, hasKey(distinctSupportedSuites, supportedSuites[qj].CipherSuite))
+//@ invariant 1 [C12.sel-inv] forall(qj, 0, rangeindex+1, !hasKey(distinctSupportedSuites, cur(desiredSuites)[qj]))
+//@ ensures [C12.default-list] len(desiredSuites) == 0 ==> len(cur(desiredSuites)) == 2 && &cur(desiredSuites)[0] == &defaultCipherSuites[0] && old(len(defaultCipherSuites) == 2 && defaultCipherSuites[0] == ipmi.CipherSuite17 && defaultCipherSuites[1] == ipmi.CipherSuite3)
+//@ ensures [C12.given-list] len(desiredSuites) != 0 ==> len(cur(desiredSuites)) == len(desiredSuites) && forall(qj, 0, len(desiredSuites), cur(desiredSuites)[qj] == desiredSuites[qj])
+//@ ensures [C12.first] result1 == nil && len(desiredSuites) != 1 ==> exists(qk, 0, len(cur(desiredSuites)), *result0 == cur(desiredSuites)[qk] && hasKey(distinctSupportedSuites, cur(desiredSuites)[qk]) &&
+//@    forall(qj, 0, qk, !hasKey(distinctSupportedSuites, cur(desiredSuites)[qj])))
+//@ ensures [C12.advertised] (result1 == nil || result1 == ErrNoSupportedCipherSuite) && len(desiredSuites) != 1 ==> forall(qj, 0, len(supportedSuites), hasKey(distinctSupportedSuites, supportedSuites[qj].CipherSuite))
+
+// ---- v2session.go: an in-session command
+
+//@ func (*V2Session).SendCommand
+//@ props C05 C18
+//@ requires [sess.valid] !isnil(s) && !isnil(s.v2ConnectionShared) && !isnil(s.buffer) && !isnil(s.transport) && !isnil(c) && !isnil(s.decode) && !isnil(ctx) && !isnil(s.confidentialityLayer) && !isnil(s.backoff)
+//@ requires [C09.bound] s.AuthenticatedSequenceNumbers.Inbound < 0xfffffffe
+//@ ensures [C18.attempts] metricvec(commandAttempts, c.Name()) == old(metricvec(commandAttempts, c.Name()))+1
+//@ ensures [C18.failures] metricvec(commandFailures, c.Name()) == old(metricvec(commandFailures, c.Name()))+ite(result1 != nil, 1, 0)
+//@ ensures [C18.frame] metricsOnly(commandAttempts, commandFailures, commandRetries, commandResponses)
+
+// ---- v2session_new.go / v2session.go / bmc.go / sessionless_transport.go: open / close accounting
+
+//@ func (*V2SessionlessTransport).NewV2Session
+//@ props C18
+//@ requires [new.args] !isnil(s) && !isnil(s.V2Sessionless) && connValid(s.V2Sessionless) && !isnil(ctx) && !isnil(opts)
+//@ ensures [C18.session-attempts] metric(sessionOpenAttempts) == old(metric(sessionOpenAttempts))+1
+//@ ensures [C18.session-failures] metric(sessionOpenFailures) == old(metric(sessionOpenFailures))+ite(result1 != nil, 1, 0)
+//@ ensures [C18.sessions-open] metric(sessionsOpen) == old(metric(sessionsOpen))+ite(result1 == nil, 1, 0)
+//@ ensures [C18.session-result] (result1 == nil) == !isnil(result0)
+//@ ensures [C18.frame] metricsOnly(sessionOpenAttempts, sessionOpenFailures, sessionsOpen, commandAttempts, commandFailures, commandRetries, commandResponses)
+
+//@ func (*V2Session).closeSession
+//@ props C18
+//@ requires [sess.valid] !isnil(s) && !isnil(s.v2ConnectionShared) && !isnil(s.buffer) && !isnil(s.transport) && !isnil(s.decode) && !isnil(ctx) && !isnil(s.confidentialityLayer) && !isnil(s.backoff)
+//@ requires [C09.bound] s.AuthenticatedSequenceNumbers.Inbound < 0xfffffffe
+//@ ensures [C18.sessions-closed] metric(sessionsOpen) == old(metric(sessionsOpen))-1
+//@ ensures [C18.frame] metricsOnly(sessionsOpen, commandAttempts, commandFailures, commandRetries, commandResponses)
+
+//@ func DialV2
+//@ props C18
+//@ ensures [C18.conn-attempts] metric(v2ConnectionOpenAttempts) == old(metric(v2ConnectionOpenAttempts))+1
+//@ ensures [C18.conn-failures] metric(v2ConnectionOpenFailures) == old(metric(v2ConnectionOpenFailures))+ite(result1 != nil, 1, 0)
+//@ ensures [C18.conns-open] metric(v2ConnectionsOpen) == old(metric(v2ConnectionsOpen))+ite(result1 == nil, 1, 0)
+//@ ensures [C18.frame] metricsOnly(v2ConnectionOpenAttempts, v2ConnectionOpenFailures, v2ConnectionsOpen)
+
+//@ func (*V2SessionlessTransport).Close
+//@ props C18
+//@ requires [close.conn] !isnil(s) && !isnil(s.Transport)
+//@ ensures [C18.conns-closed] metric(v2ConnectionsOpen) == old(metric(v2ConnectionsOpen))-1
+//@ ensures [C18.frame] metricsOnly(v2ConnectionsOpen)
